@@ -201,3 +201,15 @@ package clientgen
 //@   modifies *
 //@   at-call generateURLBuilding requires from_config: arg1 == cfg.fullPath && arg2 == cfg.pathParams && arg3 == cfg.queryParams && arg4 == cfg.httpMethod
 //@   ensures once: count("generateURLBuilding") == old(count("generateURLBuilding")) + 1
+
+// ---- zero-value elision of query parameters in the emitted Go client (C01/C13) ----
+
+//@ func getZeroValue(qp annotations.QueryParam) (r string)
+//@   pure
+//@   ensures scalar_kinds: spec.scalarKindName(qp.FieldKind) ==> r == spec.goZeroLiteral(qp.FieldKind)
+//@   ensures other_kinds: !spec.scalarKindName(qp.FieldKind) ==> r == spec.goZeroLiteral(qp.FieldKind)
+
+// a query-carried field is sent under its published name, unless it holds the zero value of its Go type
+//@ func (g *Generator) generateQueryParamEncoding(gf *protogen.GeneratedFile, qp annotations.QueryParam)
+//@   modifies *
+//@   ensures guarded_set: count("P:queryParams.Set(") == old(count("P:queryParams.Set(")) + 1 && count("P:if req.") == old(count("P:if req.")) + 1
